@@ -697,6 +697,38 @@ func resolveRoles(p *Prog) *Roles {
 			}
 		}
 	}
+	if len(listeners) > 1 {
+		// the listener is a goroutine of its own (or an AfterFunc callback): a literal that merely selects on
+		// ctx.Done() inside some other function is not one
+		goLit := map[*ast.FuncLit]bool{}
+		for _, f := range p.pkgFuncs(modPath) {
+			if f.Body == nil {
+				continue
+			}
+			ast.Inspect(f.Body, func(n ast.Node) bool {
+				if gs, ok := n.(*ast.GoStmt); ok {
+					if lit, ok := ast.Unparen(gs.Call.Fun).(*ast.FuncLit); ok {
+						goLit[lit] = true
+					}
+				}
+				if call, ok := n.(*ast.CallExpr); ok && resolveCallee(f.Info(), call).Key == "context.AfterFunc" && len(call.Args) == 2 {
+					if lit, ok := ast.Unparen(call.Args[1]).(*ast.FuncLit); ok {
+						goLit[lit] = true
+					}
+				}
+				return true
+			})
+		}
+		var started []*Func
+		for _, l := range listeners {
+			if l.Lit != nil && goLit[l.Lit] {
+				started = append(started, l)
+			}
+		}
+		if len(started) > 0 {
+			listeners = started
+		}
+	}
 	if len(listeners) == 1 {
 		r.Listener = listeners[0]
 		r.SpawnListen = r.Listener.Parent
